@@ -46,6 +46,8 @@ class Sim:
         if o == "mvc":
             k, a, b = t[1], t[2], t[3]
             return "ok" if (a not in g and b in g and k != "q" and g[b][0] == k) else "invalid"
+        if o in ("cpc", "cpa"):
+            return "invalid"
         if o in ("mva", "swap"):
             a, b = t[1], t[2]
             return "ok" if (a in g and b in g and g[a][0] != "q" and g[a][0] == g[b][0]) else "invalid"
@@ -94,12 +96,13 @@ def all_ops(ng, nm, kinds=KINDS):
                     ops.append(("defer", k, g, m)); ops.append(("adopt", k, g, m))
             if k != "q":
                 ops.append(("empty", k, g))
-                for h in range(ng):
-                    if h != g:
-                        ops.append(("mvc", k, g, h))
+            for h in range(ng):
+                if h != g:
+                    ops.append(("mvc", k, g, h))      # for q: offered by no guard in the model -> `invalid` unless the real type offers it
+                    ops.append(("cpc", k, g, h))      # copy construction: offered by none
     for g in range(ng):
         for h in range(ng):
-            ops.append(("mva", g, h)); ops.append(("swap", g, h))
+            ops.append(("mva", g, h)); ops.append(("swap", g, h)); ops.append(("cpa", g, h))
         ops += [("lock", g), ("unlock", g), ("del", g)]
     return ops
 
@@ -108,7 +111,7 @@ def gen_guard_case(rng, n_ops, ng=None, nm=None):
     ng = ng or rng.choice([2, 3, 4, 6]); nm = nm or rng.choice([1, 2, 2, 3])
     kinds = rng.choice(["u", "s", "us", "usq", "usq", "q", "uq"])
     ops = all_ops(ng, nm, kinds)
-    sim = Sim(); lines = []
+    sim = Sim(); lines = ["api"]
     p_bad = rng.choice([0.0, 0.0, 0.02, 0.1])
     for _ in range(n_ops):
         r = rng.random()
@@ -153,6 +156,13 @@ def guard_corpus():
         ("corpus-assert-lock", ["new u 0 0", "lock 0"]),
         ("corpus-assert-unlock", ["defer s 0 0", "unlock 0"]),
         ("corpus-ub-null", ["empty u 0", "lock 0"]),
+        # API surface: which transfer operations the real guard types offer (type traits) vs. the model's table; a seeded
+        # change made the QS lock_guard move-constructible with a memberwise move (both objects own -> double unlock)
+        ("corpus-api", ["api"]),
+        ("corpus-q-move", ["api", "new q 0 0", "mvc q 1 0", "isl 0", "isl 1", "end"]),
+        ("corpus-q-move-del", ["new q 0 0", "mvc q 1 0", "del 1", "del 0"]),
+        ("corpus-q-xfer-all", ["new q 0 0", "new q 1 1", "cpc q 2 0", "mva 0 1", "cpa 0 1", "swap 0 1", "end"]),
+        ("corpus-us-copy", ["new u 0 0", "cpc u 1 0", "defer u 2 1", "cpa 2 0", "new s 3 1", "cpc s 4 3", "end"]),
     ]
 
 
